@@ -1,0 +1,121 @@
+//! Verification hooks (feature `verif`): accessors for private manager state and handlers.
+use super::*;
+use crate::transport::manager::peer_state::PeerState;
+
+
+pub fn set_peer_state(manager: &mut TransportManager, peer: PeerId, state: PeerState) {
+    manager.peers.write().entry(peer).or_default().state = state;
+}
+
+pub fn peer_state(manager: &TransportManager, peer: &PeerId) -> Option<PeerState> {
+    manager.peers.read().get(peer).map(|context| context.state.clone())
+}
+
+pub fn insert_pending(manager: &mut TransportManager, connection_id: ConnectionId, peer: PeerId) {
+    manager.pending_connections.insert(connection_id, peer);
+}
+
+pub fn is_pending(manager: &TransportManager, connection_id: &ConnectionId) -> bool {
+    manager.pending_connections.contains_key(connection_id)
+}
+
+pub fn on_connection_established(
+    manager: &mut TransportManager,
+    peer: PeerId,
+    endpoint: &Endpoint,
+) -> Result<bool, ()> {
+    // Ok(true) = Accept, Ok(false) = Reject
+    manager
+        .on_connection_established(peer, endpoint)
+        .map(|result| result == ConnectionEstablishedResult::Accept)
+        .map_err(|_| ())
+}
+
+pub fn on_dial_failure(manager: &mut TransportManager, connection_id: ConnectionId) -> bool {
+    manager.on_dial_failure(connection_id).is_ok()
+}
+
+pub fn on_connection_closed(manager: &mut TransportManager, peer: PeerId, connection_id: ConnectionId) -> bool {
+    manager.on_connection_closed(peer, connection_id).is_some()
+}
+
+pub fn accept_counted(manager: &mut TransportManager, connection_id: ConnectionId, is_listener: bool) {
+    manager.connection_limits.accept_established_connection(connection_id, is_listener);
+}
+
+use crate::transport::{Transport, TransportEvent};
+use futures::{future::BoxFuture, Stream};
+use std::{pin::Pin, task::{Context, Poll}};
+
+/// Calls the manager makes on a transport, as seen by the verification harness.
+#[derive(Debug, Clone, Copy, PartialEq, Eq)]
+pub enum TransportCall {
+    Dial(ConnectionId),
+    Open(ConnectionId),
+    Negotiate(ConnectionId),
+    Accept(ConnectionId),
+    AcceptPending(ConnectionId),
+    RejectPending(ConnectionId),
+    Reject(ConnectionId),
+    Cancel(ConnectionId),
+}
+
+/// Transport whose answers are chosen by the harness: `decide(call)` returns whether the call succeeds.
+struct ScriptedTransport {
+    decide: Box<dyn FnMut(TransportCall) -> bool + Send>,
+}
+
+impl ScriptedTransport {
+    fn answer(&mut self, call: TransportCall) -> crate::Result<()> {
+        if (self.decide)(call) { Ok(()) } else { Err(Error::InvalidState) }
+    }
+}
+
+impl Stream for ScriptedTransport {
+    type Item = TransportEvent;
+    fn poll_next(self: Pin<&mut Self>, _cx: &mut Context<'_>) -> Poll<Option<Self::Item>> { Poll::Pending }
+}
+
+impl Transport for ScriptedTransport {
+    fn dial(&mut self, connection_id: ConnectionId, _address: Multiaddr) -> crate::Result<()> { self.answer(TransportCall::Dial(connection_id)) }
+    fn accept(&mut self, connection_id: ConnectionId) -> crate::Result<BoxFuture<'static, crate::Result<()>>> {
+        self.answer(TransportCall::Accept(connection_id))?;
+        Ok(Box::pin(async { Ok(()) }))
+    }
+    fn accept_pending(&mut self, connection_id: ConnectionId) -> crate::Result<()> { self.answer(TransportCall::AcceptPending(connection_id)) }
+    fn reject_pending(&mut self, connection_id: ConnectionId) -> crate::Result<()> { self.answer(TransportCall::RejectPending(connection_id)) }
+    fn reject(&mut self, connection_id: ConnectionId) -> crate::Result<()> { self.answer(TransportCall::Reject(connection_id)) }
+    fn open(&mut self, connection_id: ConnectionId, _addresses: Vec<Multiaddr>) -> crate::Result<()> { self.answer(TransportCall::Open(connection_id)) }
+    fn negotiate(&mut self, connection_id: ConnectionId) -> crate::Result<()> { self.answer(TransportCall::Negotiate(connection_id)) }
+    fn cancel(&mut self, connection_id: ConnectionId) { let _ = (self.decide)(TransportCall::Cancel(connection_id)); }
+}
+
+pub fn register_scripted_tcp(manager: &mut TransportManager, decide: Box<dyn FnMut(TransportCall) -> bool + Send>) {
+    manager.register_transport(SupportedTransport::Tcp, Box::new(ScriptedTransport { decide }));
+}
+
+fn noop_waker() -> std::task::Waker {
+    use std::task::{RawWaker, RawWakerVTable, Waker};
+    fn clone(_: *const ()) -> RawWaker { RawWaker::new(std::ptr::null(), &VTABLE) }
+    fn noop(_: *const ()) {}
+    static VTABLE: RawWakerVTable = RawWakerVTable::new(clone, noop, noop, noop);
+    unsafe { Waker::from_raw(RawWaker::new(std::ptr::null(), &VTABLE)) }
+}
+
+/// Drive `TransportManager::dial_address` (it never suspends): `Some(is_ok)`, or `None` if it returned `Pending`.
+pub fn dial_address_now(manager: &mut TransportManager, address: Multiaddr) -> Option<bool> {
+    let mut future = Box::pin(manager.dial_address(address));
+    let waker = noop_waker();
+    let mut cx = Context::from_waker(&waker);
+    match std::future::Future::poll(future.as_mut(), &mut cx) {
+        Poll::Ready(result) => Some(result.is_ok()),
+        Poll::Pending => None,
+    }
+}
+
+pub fn can_dial_now(manager: &TransportManager, peer: &PeerId) -> bool {
+    match manager.peers.read().get(peer) {
+        None => true,
+        Some(context) => context.state.can_dial() == crate::transport::manager::peer_state::StateDialResult::Ok,
+    }
+}
